@@ -424,6 +424,31 @@ def repair(d, cmode=False, env=None, lam=False):
     raise ValueError("repair: unknown head %r" % (t,))
 
 
+def _has_symbol(d):
+    if isinstance(d, list):
+        if d and d[0] in ("symbol", "Symbol"):
+            return True
+        return any(_has_symbol(x) for x in d)
+    return False
+
+
+def gamma_half_integer_risk(d):
+    """known crasher (C08/C40 finding, functions.cpp gamma_multiple_2: `int` product of odd numbers overflows
+    from gamma(23/2) on): does the recipe apply gamma/loggamma to a symbol-free argument whose value is a
+    half-integer of magnitude >= 10?  Such recipes are not sent to the driver (DESIGN section 4, item 4)."""
+    if not isinstance(d, list) or not d:
+        return False
+    if d[0] in ("gamma", "loggamma") and not _has_symbol(d[1]):
+        try:
+            v = fvalue(d[1])
+            if not isinstance(v, (bool, complex)) and abs(v) >= 10 and abs(2 * v - round(2 * v)) < 1e-9 \
+                    and round(2 * v) % 2 == 1:
+                return True
+        except _Bad:
+            pass
+    return any(gamma_half_integer_risk(x) for x in d[1:])
+
+
 # ----------------------------------------------------------------------------
 # high-precision reference with per-node perturbation
 
@@ -506,7 +531,7 @@ class NodeEval(on.Evaluator):
         return v
 
     # -- guards
-    def call1(self, name, x):
+    def call1(self, name, x, *rest, **kw):
         if self.cmode:
             if name in CUT_FUNCS and on_cut(name, mpc(x), self.cut_tol):
                 raise Unjudgeable("on_branch_cut:" + name)
@@ -515,7 +540,7 @@ class NodeEval(on.Evaluator):
         else:
             if name in ("acsch", "acot", "acoth", "asec", "acsc", "asech") and x == 0:
                 raise Unjudgeable("pole:" + name)
-        return on.Evaluator.call1(self, name, x)
+        return on.Evaluator.call1(self, name, x, *rest, **kw)
 
     def powv(self, bnode, enode):
         return self._powvals(self.value(bnode), self.value(enode), ("w", id(bnode), id(enode)))
